@@ -1671,6 +1671,29 @@ def closure_return_in_caller_terms(facts, clo, arg_exprs):
     return subst_expr(ret, fn)
 
 
+def flag_cases(e):
+    """what the two edges of a switch on the boolean `e` say about the tests `e` was put together from. Yields (x, edge, value): on the
+    switch's `edge` (True = the edge taken when e is true) the boolean expression x has the truth value `value`. Besides e itself (with its
+    negations stripped) this understands a flag that is `false` or one test (`a && x`, `match o { Some(v) => x, None => false }`): where
+    the flag is true, x is; and a flag that is `true` or one test (`a || x`): where it is false, x is."""
+    inner, neg = e, False
+    while isinstance(inner, tuple) and inner and inner[0] == "un" and inner[1] == "Not":
+        inner, neg = inner[2], not neg
+    out = [(inner, True, not neg), (inner, False, neg)]
+    if inner[0] == "phi":
+        consts = {const_int_of(a) for a in inner[1] if const_int_of(a) in (0, 1)}
+        rest = [a for a in inner[1] if const_int_of(a) not in (0, 1)]
+        if len(rest) == 1 and len(consts) == 1:
+            x, xneg = rest[0], False
+            while isinstance(x, tuple) and x and x[0] == "un" and x[1] == "Not":
+                x, xneg = x[2], not xneg
+            if consts == {0}:
+                out.append((x, not neg, not xneg))       # flag true -> the test holds
+            else:
+                out.append((x, neg, xneg))               # flag false -> the test fails
+    return out
+
+
 def lift_option_predicates(facts, e):
     """the predicate(s) hidden in a closure of `Option::is_some_and` / `is_none_or` / `map_or(bool, ..)` / `Result::is_ok_and`, rewritten in
     the caller's terms and with the polarity of the whole expression (so the switch's true edge implies what is returned for is_some_and,
